@@ -428,6 +428,12 @@ impl<'a> Run<'a> {
             format!("---\n{y}---\nstep\n")
         };
         let input = format!("recipe {text:?} with the {} converter", c.name);
+        // the whole analysis of the document, front matter interpreted (model of `process_frontmatter`); sampled
+        if !old_style && (c.name == "bundled" || c.name == "empty") && crate::util::hash64(&text) % 6 == 0 {
+            let (conv, mode) = (if c.name == "bundled" { 1 } else { 0 }, (crate::util::hash64(&text) / 6 % 4) as u8);
+            crate::fm::fm_case(self.ctx, &text, Extensions::all().bits(), conv, mode);
+        }
+        let c = &self.convs[ci];
         let r = guarded(|| {
             let res = c.parser.parse(&text);
             let warns = res.report().warnings().filter(|w| crate::render::diag_kind(w) == "std-unsupported-value").count();
@@ -1009,4 +1015,5 @@ hour-based ratios, one without a minute), plus a malformed stream of random and 
     time_precedence_cases(&mut run, &mut rng.fork(7), 1500 * k);
     validator_isolation_cases(&mut run, &mut rng.fork(8), 300 * k);
     soup(&mut run, &mut rng.fork(6), 2500 * k);
+    crate::fm::family(run.ctx, 0xC13);
 }
